@@ -22,6 +22,9 @@ CHECKS["C04"] = ("reference-model monitor with dynamic index semantics over gene
 CHECKS["C08"] = ("reference-model monitor over generated dynamic-array / string histories (literal, appends across growth thresholds, get/set/len/iteration, literal / let-bound / opaque indices at and around the bounds) on native (stdout to a file) and wasm; pinned probes",
  "Held on N histories: every index valid for the current length (negative and post-append positions included) was accepted and returned the stored element; every out-of-range index ended the program with an 'index out of bounds' panic and non-zero status after delivering all previously printed lines (or, for a compile-time-known index only, was rejected with T0009); no valgrind report in thorough.",
  "one array and one string per history; maps are outside this property", "DESIGN.md §3 C08")
+CHECKS["C09"] = ("relational monitor over pairs (generated program, meaning-preserving rewrite: literal->call, subexpression->local, let->const, wrap in if true) compiled and run natively (thorough: also wasm); the reference interpreter is a third witness naming the wrong side",
+ "Held on N pairs with >=1 rewrite applied: base and variant were both accepted and printed identical output with the same termination; the evidence lists how many rewrites of each kind were exercised.",
+ "fixed-array index literals and match patterns are not rewritten; expressions that can panic or have side effects are never moved", "DESIGN.md §3 C09")
 CHECKS["C06"] = ("verdict monitor by construction over the real type checker (in-process pool + CLI confirmation), complete enumeration of place kind x access path x mutation form x context with a mutable-binding control group; native value witness for wrongly accepted cases",
  "Exhaustive over the finite product the property names (2359 mutants + controls): every program applying one mutation form to one immutable place was rejected by the real compiler while the same program with the binding made mutable was accepted, so each verdict is attributable to the immutability rule.",
  "the enumerated product is the rig's reading of the property's dimensions; syntactic contexts outside the seven listed are not covered", "DESIGN.md §3 C06")
